@@ -410,6 +410,23 @@ func c01RunRG(o *out, input string) {
 var c01Lits = []string{"a", "aa", "v1", "x.y-z_0", "é", "b", "中"}
 var c01Fill = []string{"x", "aa", "v1", "é", "a.b", "~!$&'()*+,;=@", "b", "a", "0", "x2", "aGk=", "YQ==", "-_8", "YWJj"}
 var c01Verbs = []string{"GET", "POST", "PUT", "DELETE", "PATCH", "LIST", "*"}
+
+// c01Verb: a rule's verb; one in six is spelled as a custom kind in lower or mixed case ("get", "List", "hEAD"), which
+// the mux reads as the upper-case verb -- also when it looks for the binding another method already holds
+func c01Verb(r *rng) string {
+	v := r.picks(c01Verbs)
+	if v == "*" || r.intn(6) != 0 {
+		return v
+	}
+	switch r.intn(3) {
+	case 0:
+		return strings.ToLower(v)
+	case 1:
+		return v[:1] + strings.ToLower(v[1:])
+	}
+	return strings.ToLower(v[:1]) + v[1:]
+}
+
 var c01Vars = []string{"{s1}", "{s2}", "{s3}", "{nest.a}", "{nest.deep.x}", "{camelCase}", "{camel_case}", "{num}", "{data}",
 	"{s1=aa/*}", "{s2=*}", "{nest.b=b/*/aa}", "{s3=v1/aa}"}
 var c01TailVars = []string{"{s2=aa/**}", "{s3=**}", "{nest.a=b/**}"}
@@ -560,7 +577,7 @@ func c01RuleSet(r *rng) []c01Method {
 			nb = 1
 		}
 		for j := 0; j < nb; j++ {
-			m.Bindings = append(m.Bindings, c01Binding{Verb: r.picks(c01Verbs), Tmpl: c01Tmpl(r)})
+			m.Bindings = append(m.Bindings, c01Binding{Verb: c01Verb(r), Tmpl: c01Tmpl(r)})
 		}
 		ms = append(ms, m)
 	}
@@ -571,12 +588,12 @@ func c01RuleSet(r *rng) []c01Method {
 			continue
 		}
 		if len(ms[i].Bindings) > 0 && r.bool() {
-			ms[i].Config = []c01Binding{ms[i].Bindings[0], {Verb: r.picks(c01Verbs), Tmpl: c01Tmpl(r)}}
+			ms[i].Config = []c01Binding{ms[i].Bindings[0], {Verb: c01Verb(r), Tmpl: c01Tmpl(r)}}
 			if len(ms[i].Bindings) == 1 {
-				ms[i].Bindings = append(ms[i].Bindings, c01Binding{Verb: r.picks(c01Verbs), Tmpl: c01Tmpl(r)})
+				ms[i].Bindings = append(ms[i].Bindings, c01Binding{Verb: c01Verb(r), Tmpl: c01Tmpl(r)})
 			}
 		} else {
-			ms[i].Config = []c01Binding{{Verb: r.picks(c01Verbs), Tmpl: c01Tmpl(r)}}
+			ms[i].Config = []c01Binding{{Verb: c01Verb(r), Tmpl: c01Tmpl(r)}}
 		}
 	}
 	// sometimes: families that share prefixes (precedence), or the implicit path of a method
@@ -595,7 +612,7 @@ func c01RuleSet(r *rng) []c01Method {
 		// a rule that spells the method's own implicit binding ('*' on /Service/Method) and brings
 		// additional bindings; as an annotation or as a service-config rule
 		own := c01Binding{Verb: "*", Tmpl: "/verif.rt.S3/Own"}
-		adds := []c01Binding{{Verb: r.picks(c01Verbs), Tmpl: c01Tmpl(r)}, {Verb: "GET", Tmpl: "/own/{s1}"}}
+		adds := []c01Binding{{Verb: c01Verb(r), Tmpl: c01Tmpl(r)}, {Verb: "GET", Tmpl: "/own/{s1}"}}
 		if r.bool() {
 			ms = append(ms, c01Method{Svc: "S3", Name: "Own", Bindings: append([]c01Binding{own}, adds...)})
 		} else {
@@ -860,6 +877,18 @@ func c16Gen(o *out, r *rng, tier string) {
 			emit(base, []c01Method{{Svc: "S1", Name: "B"}, {Svc: "S1", Name: "A", Bindings: []c01Binding{{Verb: v, Tmpl: "/verif.rt.S1/B"}}}})
 			emit(base, []c01Method{{Svc: "S1", Name: "A", Bindings: []c01Binding{{Verb: v, Tmpl: "/verif.rt.S2/B"}}}, {Svc: "S2", Name: "B"}})
 			emit(base, []c01Method{{Svc: "S1", Name: "A", Config: []c01Binding{{Verb: v, Tmpl: "/verif.rt.S2/B"}}}, {Svc: "S2", Name: "B"}})
+		}
+	}
+	// custom kinds are verbs in any spelling: two methods on one node under "head" / "Head" / HEAD, a custom "get" against
+	// the get pattern, and the same method twice
+	for _, t := range []string{"/v9/probe", "/v9/things/{s1}", "/base/{s1}"} {
+		for _, k := range [][2]string{{"head", "head"}, {"HEAD", "head"}, {"head", "HEAD"}, {"Head", "hEAD"}, {"GET", "get"}, {"get", "GET"}, {"Get", "get"},
+			{"list", "LIST"}, {"head", "GET"}, {"*", "head"}, {"head", "*"}} {
+			for base := 0; base <= 1; base++ {
+				emit(base, []c01Method{{Svc: "S1", Name: "A", Bindings: []c01Binding{{Verb: k[0], Tmpl: t}}}, {Svc: "S1", Name: "B", Bindings: []c01Binding{{Verb: k[1], Tmpl: t}}}})
+				emit(base, []c01Method{{Svc: "S1", Name: "A", Bindings: []c01Binding{{Verb: k[0], Tmpl: t}, {Verb: k[1], Tmpl: t}}}})
+				emit(base, []c01Method{{Svc: "S1", Name: "A", Bindings: []c01Binding{{Verb: k[0], Tmpl: t}}}, {Svc: "S2", Name: "B", Config: []c01Binding{{Verb: k[1], Tmpl: t}}}})
+			}
 		}
 	}
 	// long templates around the 64-token cap
